@@ -8,7 +8,8 @@ From BT Require Import Base.Prelude Base.Str Base.Rose Algo.Modify Spec.PC08.
 Record mcase := MC {
   mc_in : minput;
   mc_obs : mobs;
-  mc_seq : option mobs }.
+  mc_seq : option mobs;
+  mc_listy : bool }.      (* false: from_paths / to_paths were handed over as a tuple or a generator *)
 
 (* the model's outcome in the harness' observation format *)
 Definition obs_of (i : minput) (o : outc) : mobs :=
@@ -16,7 +17,14 @@ Definition obs_of (i : minput) (o : outc) : mobs :=
      (flatten 1 (piece (fst o) 0))
      (if is_tt (mi_op i) then flatten 1 (piece (fst o) 1) else []).
 
+(* modify.py:1055 / 1271: anything but two lists is refused with ValueError before anything happens *)
+Definition refused_obs (i : minput) : mobs :=
+  MO (exn_code ValueError) (flatten 1 (mi_src i)) (if is_tt (mi_op i) then flatten 1 (mi_dst i) else []).
+
 Definition check_C08 (c : mcase) : nat :=
+  if negb (mc_listy c) then
+    flag (negb (obs_eqb (refused_obs (mc_in c)) (mc_obs c))) (F_DISAGREE + F_PROPFAIL)
+  else
   let i := mc_in c in
   let m := run i in
   let pf := flag (negb (prop_C08 i (mc_obs c) (mc_seq c))) F_PROPFAIL in
